@@ -16,11 +16,13 @@ import (
 
 	"github.com/oasisprotocol/curve25519-voi/primitives/ed25519"
 	"github.com/oasisprotocol/curve25519-voi/zzverif/disturb"
+	"github.com/oasisprotocol/curve25519-voi/zzverif/entropy"
 	"github.com/oasisprotocol/curve25519-voi/zzverif/mon"
 	"github.com/oasisprotocol/curve25519-voi/zzverif/ref"
 )
 
 type Case struct {
+	Kind    string `json:"kind,omitempty"` // "" = signing case, "entropy" = reader-behaviour case
 	Seed    string `json:"seed"`
 	Msg     string `json:"msg"`
 	Ctx     string `json:"ctx"`
@@ -126,7 +128,16 @@ func verifyAll(r *mon.Run, c Case, what string, pub ed25519.PublicKey, m, sig []
 	}
 }
 
+// entropyCase: the entropy-consuming APIs of this property behind differently behaving readers (package entropy).
+func entropyCase(r *mon.Run, c Case) {
+	entropy.Check(r, "C02", r.Rng(fmt.Sprintf("c02/entropy/%d", c.Idx)), func(sig, what string) { r.Violate(sig, what, c) })
+}
+
 func runCase(r *mon.Run, c Case) {
+	if c.Kind == "entropy" {
+		entropyCase(r, c)
+		return
+	}
 	seed, msg, ctx := mon.UnHex(c.Seed), mon.UnHex(c.Msg), string(mon.UnHex(c.Ctx))
 	rng := r.Rng(fmt.Sprintf("c02/case/%d", c.Idx))
 	r.Journal("c02 case %+v", c)
@@ -414,5 +425,8 @@ func main() {
 		cases = append(cases, Case{Seed: mon.Hex(seed), Msg: mon.Hex(mon.Bytes(rng, ml)), Ctx: mon.Hex(mon.Bytes(rng, cl)), Variant: variant, SelfV: i%2 == 0, Preset: i%5 - 1, Flips: flips, Idx: i})
 	}
 	r.Parallel(len(cases), func(i int) { runCase(r, cases[i]) })
+	for i := 0; i < r.Pick(6, 60); i++ {
+		entropyCase(r, Case{Kind: "entropy", Idx: i})
+	}
 	r.Finish()
 }
